@@ -199,3 +199,20 @@ def envelope_docs(entries=None):
                                     break
                                 depth -= 1
                     yield ('envelope:%s:%s:%s@%d:%s' % (e[4], tag, name, i, k), d, {'entry': e, 'valid': False})
+
+
+def ta1_docs(entries=None):
+    """interchanges that ask for a TA1 (ISA14 = 1): 1..3 interchanges, every non-empty subset of them asking"""
+    ents = entries or [e for e in one_entry_per_map() if e[4] in ('834.4010.X095.A1.xml', '835.5010.X221.A1.xml')]
+    for e in ents:
+        for ni in (1, 2, 3):
+            base = build_ok(e, {'interchanges': ni})
+            if base is None:
+                continue
+            isas = [i for i, s in enumerate(base.segs) if s[0] == 'ISA']
+            for mask in range(1, 2 ** ni):
+                d = copy.deepcopy(base)
+                for k, i in enumerate(isas):
+                    if mask >> k & 1:
+                        d.segs[i][14] = '1'
+                yield ('ta1:%s:%d:%s' % (e[4], ni, format(mask, 'b').zfill(ni)), d, {'entry': e, 'valid': True})
